@@ -194,7 +194,11 @@ where
                     let _ = tx.send(result);
                 });
 
+                // `biased`: look at the result first. An unbiased select picks its first
+                // branch at random, so a call whose inner future had finished in time - but
+                // which was polled only at or after the deadline - could report a timeout.
                 tokio::select! {
+                    biased;
                     result = rx => {
                         // Task completed - unwrap the channel result
                         result.ok()
